@@ -21,7 +21,7 @@ CHECKS = {
     "C10": ("exploration", "compile() raises only ParseError/SsbCompilerError/ValueError on every text (valid corpus, single-token corruptions, prefixes, random text, meta attribute lines), always rejects each listed meaningless program class and leaves no output; import graphs; CLI exit status. Deductive layer: parse_exps_meta_attributes, strip_last_label, LabelFinalizer._labels_after/__init__ and the loop/case stack methods proved exception-free for every input satisfying the stated well-typed-heap precondition (safety obligations; IndexError of the stack pops exactly when empty).", "trusted: bounded scope; opaque model of re/str library calls in pyvc", T3 + " + " + T1 + " safety obligations", "§4 C10"),
     "C11": ("exploration", "compile()/convert() are functions of their arguments: all histories of length <= 3 over a pool of 12 calls (de Bruijn cover) vs fresh-process baselines, instance reuse, same input object twice, frame of convert(), decompilation order (K processes), every call again in fresh processes with other string-hash seeds, static audit of mutable module/class state.", "trusted: bounded histories", T3 + " over histories", "§4 C11"),
     "C13": ("exploration", "decompile(compile(p)) of every flat structured program (exhaustive up to a bound) contains no jump statement and prints every operation once.", "trusted: spec/esast.py; bounded scope", T3, "§4 C13"),
-    "C14": ("proof", "Every obligation generated from the current source of SourceMap.rewrite_offsets of SourceMapPositionMark.__eq__ / MacroSourceMapping.__eq__ and of the three leaf (de)serialisers (plus their round-trip lemmas) against contracts taken from the property text is discharged by z3 for all inputs and all iterations (loop invariants, termination of the return-address search). The JSON glue of SourceMap.serialize/deserialize (comprehensions around json.dumps/loads) and the `same text again` clause are only covered by a bounded stand-in (random maps through real JSON), labelled bounded in evidence; SourceMapBuilder.add_macro_opcode is proved to allocate one entry object per op (rewrite_offsets' precondition), and source maps the compiler really builds are checked for it as a bounded stand-in.", "trusted: pyvc's encoding of Python (DESIGN §2.2), z3, assumed json round-trip contract, well-typed-heap precondition (int keys, one object per macro entry); bounded: SourceMap.serialize/deserialize glue", T1 + "; bounded run-time contract monitor as stand-in for the JSON glue", "§4 C14"),
+    "C14": ("proof", "Every obligation generated from the current source of SourceMap.rewrite_offsets of the three __eq__ methods (SourceMapping, MacroSourceMapping, SourceMapPositionMark) and of the three leaf (de)serialisers (plus their round-trip lemmas) against contracts taken from the property text is discharged by z3 for all inputs and all iterations (loop invariants, termination of the return-address search). The JSON glue of SourceMap.serialize/deserialize (comprehensions around json.dumps/loads) and the `same text again` clause are only covered by a bounded stand-in (random maps through real JSON), labelled bounded in evidence; SourceMapBuilder.add_macro_opcode is proved to allocate one entry object per op (rewrite_offsets' precondition), and source maps the compiler really builds are checked for it as a bounded stand-in.", "trusted: pyvc's encoding of Python (DESIGN §2.2), z3, assumed json round-trip contract, well-typed-heap precondition (int keys, one object per macro entry); bounded: SourceMap.serialize/deserialize glue", T1 + "; bounded run-time contract monitor as stand-in for the JSON glue", "§4 C14"),
     "C15": ("exploration", "Both CLIs as subprocesses on generated programs and on documents enumerating every documented routine/argument type: JSON schema from the docs, jump parameter = 1-based position of its target, decompile accepts the output and the result is bisimilar, exit status.", "trusted: bounded scope; jsonschema written from docs/cli_api_usage.rst", T3 + " (subprocess level)", "§4 C15"),
     "C16": ("exploration", "Relational contract of compile(): every re-spelling (layout, comments at every token boundary, @/§, for_actor/for actor, trailing comma, integer bases, decimal zeros, quote style) compiles to identical ops/tables/position marks.", "trusted: the re-spelling generator only applies transformations the grammar defines as equivalent; bounded scope", T3 + " (metamorphic)", "§4 C16"),
     "C17": ("proof", "Under a stated contract on Pygments' RegexLexer engine the property reduces to obligations on the lexer's token table: no rule matches the empty string (termination), every action emits the whole match (losslessness), every reachable state is total on non-newline input (no Error token, for ALL strings). The obligations are generated from the real processed table on every run and discharged by z3's regex theory; the engine contract and the normalisation reading are cross-checked by an exhaustive bounded run (labelled bounded).", "trusted: the assumed engine contract (Pygments source), the re->z3 translation, z3's regex solver; interpretation: 'up to the trailing newline' is read as Pygments' documented input normalisation", "contract-based deductive verification of the lexer's token table (regex VCs, z3) + bounded exhaustive cross-check", "§4 C17"),
